@@ -39,6 +39,7 @@ P = {
          "A number kept as text is converted by handing the stored text itself to strconv.Parse* (no rewriting in front of the parser). "
          "Integer seconds reach a Duration through integer arithmetic only (no detour through float64, which would round above 2^53). "
          "reifyDuration classifies what a reference evaluates to, not the reference node, so a number behind a reference means seconds like one written in place (R03f). "
+         "The numbers parse.Value finds in the text of a value (what a resolver, a default or a splice expands to) are result #0 of strconv.ParseUint/ParseInt/ParseFloat: no hand-written digit arithmetic with an overflow behaviour of its own (R03g). "
          "Thorough tier repeats the rules for GOARCH=386. Two known findings (reflect fall-through for unsupported kinds; int(idx) on 32-bit). "
          "That an in-range number is stored exactly, and strconv/time parsing, are not decided.",
          TRUST + "strconv and time.ParseDuration trusted.",
@@ -68,7 +69,7 @@ P = {
          "normalizeSetField and nothing else in the normalize family stores a named setting or merges a normalised part into the tree under construction; that function parses the name with the configured "
          "separator, stores only where nothing non-nil is present, merges only object with object and reports every other collision as a duplicate; "
          "(d) normalizeValue chases pointers and interfaces before it looks at kind or special type; (e) the name a struct field is stored under is the "
-         "name part of its tag as written (only Split/index/TrimSpace between the tag and the name), as a map key is. Round-trip equality, numeric equality and "
+         "name part of its tag as written (only Split/index/TrimSpace between the tag and the name), as a map key is. No normalize function stores through a path segment of its own making (namedField/idxField.SetValue). Round-trip equality, numeric equality and "
          "idempotence over all trees and representations are runtime-value facts and are NOT decided (this property was planned as not applicable; "
          "the claim is limited to these necessary conditions, DESIGN.md section 8.9).",
          TRUST,
@@ -118,7 +119,7 @@ P = {
          "and its failing edge returns the cyclic error; no makeOptions caller is recursive (the guard is never reset inside a recursion); guard scopes "
          "are paired, text-level evaluators resolve inside a scope that covers the consumption of the value, and every child loop that can reach "
          "resolveRef opens a fresh child scope per iteration; live sub-configs are never cached; the guard chain is never cut; an unresolved reference "
-         "is never a success. Does not decide that non-cyclic graphs produce the right text.",
+         "is never a success; a resolved value that a helper returns out of its guard scope is followed to the callers, none of which may evaluate it (R08d(ii)). Does not decide that non-cyclic graphs produce the right text.",
          TRUST + "Cut at parseValue (text produced by an evaluation is normalized into a fresh tree). Merge/normalize loops are outside C08's read entry points.",
          "§3 C08"),
  "C09": (True,
@@ -129,7 +130,8 @@ P = {
          "other: no value carried between iterations, no early exit, and every effect of the body lands on fresh objects, the per-call options, "
          "per-key values or the destination through accessors keyed by the loop key (callee effects from the E1 mod summaries). The comparators "
          "of the sorts are strict orders on the keys: key(x[i]) < key(x[j]) on the element itself, or a lexicographic comparison whose last level "
-         "is the key's type (the text of a key alone ties for two keys of an interface keyed map that spell the same name).",
+         "is the key's type (the text of a key alone ties for two keys of an interface keyed map that spell the same name). The accessors whose effects "
+         "the classification trusts to be keyed (fields.get/set/del) are checked themselves: nothing but the map entry of the key argument is written, so no list of names in call order can make an unsorted copy loop order dependent (R09e).",
          "Not decided: order-independence of user callbacks (Unpacker, Validator, resolvers); that evaluating a reference while handling one key "
          "does not observe a sibling key written earlier in the same sorted pass (deterministic either way once the order is fixed); the per-call "
          "value cache is accepted under C08 R08e; GetFields / fieldSet.Names / diff.String return names in runtime order and are outside the "
@@ -176,6 +178,7 @@ P = {
          "by the exported/!ignore tests and callers use it only under !skip; Unpack's list-policy dispatch partitions the policies exactly like Merge's; "
          "merge-or-replace is never decided on the stored representation of an unevaluated setting (a reference to a section is no cfgSub); a field "
          "without a policy tag keeps the policy in force (accessField replaces it only when the tag names one). "
+         "No routine of the unpack family returns the zero reflect.Value next to an error that can be nil: a successful answer carries the value the caller stores, also for a struct, map or array that could only be merged into a temporary copy (R13h). "
          "Which fields are overwritten is value-level and not decided; maps and pointees are excluded by the property.",
          TRUST,
          "§3 C13"),
@@ -208,7 +211,7 @@ P = {
          "that every acyclic (feasible) path of fieldOptsOverride which returns the incoming options unchanged under a non-nil tree has established "
          "tree == child or an array hop, that the handling looked up is that of the key/index being merged, and that applying an Option writes no state "
          "captured by the Option value (no memo, no captured tree installed into the options), and that the handling tree is written and read "
-         "under the same index classification options. Necessary for 'exactly the named subtree'; the merged "
+         "under the same index classification options; every mergeValues call receives the options fieldOptsOverride returned for the key on every path (the caller's own only where the tree is nil, R16g), and the options it returns are the incoming ones or a copy made in that call (no memo carried along by whole-value copies). Necessary for 'exactly the named subtree'; the merged "
          "values and wildcard semantics in full are not decided.",
          TRUST,
          "§3 C16"),
@@ -219,6 +222,7 @@ P = {
          "allows around structural characters can never cause a rejection — that the skipper covers space, tab, line feed and carriage return, "
          "that all of the parser's indexing is in bounds, that an unquoted token reaches strconv.ParseFloat whenever the keyword tests and both exact "
          "integer parses failed (no spelling filter in front of it), and that each syntax "
+         "every number returned is result #0 of a strconv parse of the token (R17i), and that each syntax "
          "branch is entered only under its first byte and its Config flag (IgnoreCommas selects the stop set). Holds for all documents and flag "
          "combinations. That the data returned equals the JSON document (number syntax, escapes, string termination) is value-level and not decided.",
          TRUST + "strconv.Unquote/Parse* trusted.",
@@ -231,7 +235,7 @@ P = {
          "key take the metadata of the value being stored, that cfgInt, cfgUint and cfgFloat support the same conversions (the front-ends differ in which "
          "of them a whole number becomes), that the empty config a null reads as keeps the null's metadata and a setter attaches its metadata before "
          "the store, that every error constructor forwards real metadata to messageMeta, and that no normalize "
-         "function has a store path of its own for one decoder's representation (every named setting goes through normalizeSetField), and that what parseValue parses out of the text of a value is normalised with that value's metadata, not with the reading call's (R18k). Holds for all documents at once; equality of the data produced by the three third-party decoders is not decided.",
+         "function has a store path of its own for one decoder's representation (every named setting goes through normalizeSetField — also no store through a path segment made on the spot, namedField{k}.SetValue), and that what parseValue parses out of the text of a value is normalised with that value's metadata, not with the reading call's (R18k). Holds for all documents at once; equality of the data produced by the three third-party decoders is not decided.",
          TRUST + "Third-party decoders are outside the tree.",
          "§3 C18"),
  "C19": (True,
@@ -252,7 +256,7 @@ P = {
          "SSA and evaluated on every ordering region of (idx, maxIdx) x numKeys x parse error; it must equal !numKeys && parsed && 0<=idx<=maxIdx. "
          "Also: names returned unmodified, numeric keys cleared only for multi-segment paths, ParseInt(in,0,64), parseField is the only text->index "
          "classifier; an index segment is never answered from the dictionary part of a node; parsePathIdx hands the caller's options to the path parser "
-         "unchanged. Because the code touches the number only through comparisons the finite table is exhaustive; list growth is under C07.",
+         "unchanged. A segment becomes a name only by parseField's verdict (no namedField is built anywhere else: no second classifier for plain names); where parsePath does not clear the numeric-keys flag for multi-segment names every caller must pass the constant false, and any other call of parseField with a flag that can be true needs evidence on every way in that the name holds no separator. Because the code touches the number only through comparisons the finite table is exhaustive; list growth is under C07.",
          TRUST + "strconv.ParseInt is trusted to implement Go integer syntax.",
          "§3 C20"),
 }
